@@ -275,9 +275,15 @@ func (P *Program) nameClosures(pk *packages.Package) {
 	}
 	var visit func(fn *ssa.Function)
 	visit = func(fn *ssa.Function) {
+		yields := 0
 		for _, af := range fn.AnonFuncs {
 			if n, ok := litName[af.Pos()]; ok {
 				P.closureNames[af] = P.specName(fn) + "/" + n
+			}
+			// the body of a range-over-func loop is a synthetic function: Outer/rangefuncK, K in source order
+			if af.Synthetic == "range-over-func yield" {
+				yields++
+				P.closureNames[af] = fmt.Sprintf("%s/rangefunc%d", P.specName(fn), yields)
 			}
 			visit(af)
 		}
